@@ -53,11 +53,21 @@ func init() {
 			return // a managed thread: the scheduler decided the lock is free now
 		}
 		if PanicOnWait {
-			panic(WouldBlock{path})
+			// sequential harness: wait while somebody else could still release the lock; if nobody can, it is a hang
+			func() {
+				defer func() {
+					if r := recover(); r != nil {
+						panic(WouldBlock{path})
+					}
+				}()
+				vsync.SeqAcquire(func() bool { mu.Lock(); defer mu.Unlock(); return held[path] == 0 }, "flock")
+			}()
+			return
 		}
 		time.Sleep(50 * time.Millisecond)
 	}
 	bbolt.VerifSequential = func() bool { return seq }
+	bbolt.VerifSeqAcquire = vsync.SeqAcquire
 	bbolt.VerifPoint = func(kind uint8, obj uintptr, arg int) bool { return vsched.Point(vsched.Kind(kind), obj, arg) }
 	vsched.FlockHeld = func(path string) bool {
 		mu.Lock()
